@@ -54,6 +54,8 @@ def result(rc, prog, nontrivial=None, extra_stats=None, distinct_extra=None):
         "clock_jumps": rc.clock.jumps if rc.clock else 0,
         "sim_time_s": (rc.clock.now - 1.7e9) if rc.clock else 0,
     }
+    if rc.skipped:
+        stats["skipped_runs"] = 1
     if extra_stats:
         stats.update(extra_stats)
     if nontrivial is None:
@@ -88,8 +90,20 @@ def trace_digest(rc):
     return h.hexdigest()
 
 
+def _safe_default(o):
+    try:
+        r = repr(o)
+        if " at 0x" in r:
+            return "<%s>" % type(o).__name__
+        return r
+    except BaseException:  # noqa
+        return "<%s>" % type(o).__name__
+
+
 def canon_msg(m):
     try:
-        return json.dumps(m, sort_keys=True, default=repr)
-    except Exception:  # noqa
-        return repr(sorted(m.items(), key=lambda kv: str(kv[0]))) if isinstance(m, dict) else repr(m)
+        return json.dumps(m, sort_keys=True, default=_safe_default)
+    except BaseException:  # noqa
+        if isinstance(m, dict):
+            return repr(sorted((str(k), _safe_default(v)) for k, v in m.items()))
+        return _safe_default(m)
